@@ -50,6 +50,8 @@ pub mod vhost_kern;
 pub mod vhost_user;
 #[cfg(feature = "vhost-vsock")]
 pub mod vsock;
+#[cfg(feature = "verif-hooks")]
+pub mod verif;
 
 // Due to the way `xen` handles memory mappings we can not combine it with
 // `postcopy` feature which relies on persistent memory mappings. Thus we
